@@ -191,6 +191,10 @@ impl Check for Determinism {
     fn cases(&self, tier: Tier) -> usize {
         tier.pick(600, 10_000)
     }
+    fn shrink_steps(&self) -> usize {
+        // every re-execution starts the binary three times or more
+        120
+    }
     fn strategy(&self, _tier: Tier) -> BoxedStrategy<DetCase> {
         let c = det_cfg();
         let flags = prop::sample::subsequence(
@@ -201,7 +205,15 @@ impl Check for Determinism {
             1 => crate::generators::task::choices(184).prop_map(DetCase::External),
             // up to 14 rules: a command that handled the formulas of a longer theory concurrently
             // would have to keep their order
-            1 => (ga::program(&ga::AspCfg { max_rules: 14, ..c.clone() }), prop::sample::select(Transform::all())).prop_map(|(p, t)| DetCase::Translate(p, t)),
+            1 => (
+                prop_oneof![
+                    3 => ga::program(&ga::AspCfg { max_rules: 14, ..c.clone() }),
+                    // one program in four has 32-72 rules (a size at which work may be split among threads)
+                    1 => proptest::collection::vec(ga::shaped_rule(&c), 32..72).prop_map(|rules| asp::Program { rules }),
+                ],
+                prop::sample::select(Transform::all())
+            )
+                .prop_map(|(p, t)| DetCase::Translate(p, t)),
             1 => (ga::program(&c), ga::program(&c), flags, 0u8..4).prop_map(|(a, b, mut f, d)| {
                 match d {
                     1 => f.push("--direction=forward"),
@@ -214,7 +226,7 @@ impl Check for Determinism {
         .boxed()
     }
     fn rule(&self) -> String {
-        "random program (many predicates and symbols so that any ordering taken from a hash map would vary) given to the real binary three times in fresh processes: translate/simplify output, or the set of problem files written by verify --equivalence strong --no-proof-search --save-problems under random flags; oracle: byte-identical stdout / identical file sets and contents, and equal to the in-process result; non-trivial = output of at least 200 bytes mentioning at least 3 predicates or symbols; distinct by output".into()
+        "random program (many predicates and symbols so that any ordering taken from a hash map would vary; up to 14 rules, one in four of the translated ones 32-72 rules) given to the real binary three times in fresh processes: translate/simplify output, or the set of problem files written by verify --equivalence strong --no-proof-search --save-problems under random flags; oracle: byte-identical stdout / identical file sets and contents, and equal to the in-process result; non-trivial = output of at least 200 bytes mentioning at least 3 predicates or symbols; distinct by output".into()
     }
     fn run(&self, case: &DetCase) -> Outcome {
         let Some(bin) = cli::anthem_bin() else {
